@@ -155,16 +155,6 @@ Proof.
   rewrite (phase2_spec _ _ _ _ _ P2 i L) in F. discriminate.
 Qed.
 
-(* ... and nothing that agrees with the list is removed *)
-Lemma phase1_keeps t l : forall c lc c1 lc1 ok,
-  phase1 c t l lc = (c1, lc1, ok) ->
-  forall i d, find (t, i) (files c) = Some d ->
-  (forall sz, In (i, sz) l -> lc_find i lc = Some sz) ->
-  find (t, i) (files c1) = Some d /\ (In i (map fst l) -> lc_find i lc1 = None) /\
-  (~ In i (map fst l) -> lc_find i lc1 = lc_find i lc).
-Proof.
-Abort.
-
 Section Listing.
 Variable content : key -> bytes.
 
@@ -177,8 +167,8 @@ Proof.
   apply sort_ids_In in L. apply sizes_of_In in L. destruct L as [d' [I Len]].
   pose proof (HB _ _ I) as E'. subst d'.
   pose proof (rnl_shrinks c t (be_list be t) ord) as S.
-  pose proof (sh_in _ _ _ S _ (find_In _ _ _ F)) as I0.
-  destruct (HC _ _ I0) as [E|E]; [|congruence]. subst d.
+  pose proof (sh_le _ _ _ S _ _ F) as F0.
+  destruct (HC _ _ F0) as [E|E]; [|congruence]. subst d.
   destruct (In_find _ _ _ I) as [d'' F'']. rewrite F''. f_equal. eapply BeHonest_find; eassumption.
 Qed.
 End Listing.
